@@ -187,7 +187,10 @@ def _add_lexical_resource(
         # if the system crashes during a write, but they should also
         # make inserts much faster
         cur.execute('PRAGMA synchronous = OFF')
-        cur.execute('PRAGMA journal_mode = MEMORY')
+        # fetch the row this returns: a statement left pending on the
+        # cursor blocks later commits for as long as the cursor lives
+        # (e.g., in the traceback of an exception the caller holds)
+        cur.execute('PRAGMA journal_mode = MEMORY').fetchall()
 
         for lexicon in resource['lexicons']:
             spec = format_lexicon_specifier(lexicon["id"], lexicon["version"])
